@@ -248,13 +248,17 @@ func c02Run(cs c02Case) (res c02Result) {
 			if p.Domain != "" {
 				pr.Bm = matcher.domainMatcher.MatchDomainBitmap(p.Domain)
 				// the control plane binds the domain's bitmap to the addresses of the answer
-				cache := &DnsCache{DomainBitmap: pr.Bm, Answer: []dnsmessage.RR{&dnsmessage.AAAA{AAAA: d16[:]}}}
+				var rr dnsmessage.RR = &dnsmessage.AAAA{AAAA: d16[:]}
+				if dst.Is4() || dst.Is4In6() {
+					rr = &dnsmessage.A{A: dst.Unmap().AsSlice()}
+				}
+				cache := &DnsCache{DomainBitmap: pr.Bm, Answer: []dnsmessage.RR{rr}}
 				snap, e := buildDomainRoutingOwnerSnapshot(cache)
 				if e != nil {
 					pr.Err = "snapshot: " + e.Error()
 					return
 				}
-				if len(snap.ips) == 1 && !isZeroDomainRoutingBitmap(snap.bitmap) {
+				if len(snap.ips) == 1 && !isZeroDomainRoutingBitmap(snap.bitmap) { // desiredBitmapForKeyLocked
 					for k := range snap.ips {
 						pr.DKey = c02Bytes(&k)
 					}
